@@ -81,6 +81,14 @@ var verifC02Progs = [...]string{
 	`param (a, b); base := [1, 2, 3, 4]; f := func(x, y, z) { return [x, y, z] }; h := base[:2]; r := f(a, ...h); return [r, h, base]`,
 	`param (a, b); base := [1, 2, 3]; g := func(p, ...rest) { return [p, rest] }; r := g(...base[:1]); return [r, base]`,
 	`param (a, b); base := [[1, 2], [3, 4], [5, 6]]; for k, v in base[:1] { x, y, z := v; base[k] = [z, y, x] }; return base`,
+	// --- an error unwinds frames in various states (reused by a statement-position
+	// self call, with a pending finally, with results still to be delivered), then
+	// execution continues with calls at the same depths (58-62)
+	`param (a, b); var f; f = func(n) { if n == 0 { throw "boom" }; f(n - 1) }; g := func() { return 42 }; try { f(3) } catch e { }; return [g(), a]`,
+	`param (a, b); var f; f = func(n) { if n == 0 { return 1 / n }; f(n - 1) }; h := func(x) { return x + 1 }; r := []; for i := 0; i < 2; i++ { try { f(2) } catch e { r = append(r, e.Name) }; r = append(r, h(i)) }; return r`,
+	`param (a, b); mk := func() { try { throw "t" } finally { a += 1 } }; g := func() { return "g" + string(a) }; try { mk() } catch e { }; return [g(), g()]`,
+	`param (a, b); d3 := func() { throw "d3" }; d2 := func() { return d3() + 1 }; d1 := func() { d2(); return 5 }; ok := func(x) { return x * 2 }; v := 0; try { v = d1() } catch e { v = -1 }; return [v, ok(a), ok(b)]`,
+	`param (a, b); var f; f = func(n, ...r) { if n == 0 { throw r }; f(n - 1, n, ...r) }; g := func(...r) { return r }; res := undefined; try { f(2) } catch e { res = e.Message }; return [res, g(a), g(a, b), g()]`,
 }
 
 // VerifC02Prog: the compiled program behaves as the documented source-level
